@@ -60,6 +60,10 @@ CHECKS = {
    tech="TLC-generated kinds with member values chosen by the specification's independent InKind; real Kind at_path/get/insert/remove/union/merge/is_superset results checked by TLC with InKind against the real Value operations",
    text="GenKinds.tla enumerates 682 kinds (primitive sets, objects with known fields and unknown in {none, exact integer, exact bytes|null, any, json}, arrays with known indices incl. holes and optional elements, nesting, collection-or-primitive) and computes with the TLA+ membership predicate which of 197 values each contains. For sampled (kind, member, path, inserted kind+member, merge partner, compact) cases the harness builds the real Kind through public builders, applies the real Kind operations and the real Value operations, and TLC checks soundness S1-S5 (read, insert, remove incl. the removed value's kind, union/merge, subtype test vs membership) on the real results, naming the circumstances (negative index, optional/sparse known index, through an unknown member, padding, compaction, collection-or-primitive, optional field on the merge's right side) of every violation.",
    note="trusted: InKind's reading of what a kind means (written from the documentation of kinds, independent of Kind's code); the harness' kind builder/serialiser (cases whose kind does not survive the builder round trip are not judged)"),
+ "C20": dict(engine="B", cat="model_checking", design="6/C20",
+   tech="PathSyntax.tla transcribes the path renderer and the JIT parser state machine; TLC model-checks the round trip on it and validates the real renderer, parse_value_path / parse_target_path / string conversions and the VRL compiler's query paths against it",
+   text="Model level: TLC checks on the transcribed serialize_field/renderer and the 11-state JIT parser that every path of 1-2 segments over hostile field strings (quotes, backslashes, dots, spaces, brackets, non-ASCII, empty) and positive/negative/multi-digit indices survives Render -> Parse, with either target prefix (26406 paths, exhaustive). Implementation level: the same paths (plus triples) go through the real String::from(&OwnedValuePath), parse_value_path, OwnedTargetPath display + parse_target_path with both prefixes and the TryFrom<String> conversions (R1); every text of length <= 4 (thorough 5) over {. a - [ ] 0 1 \" \\ @ % space} plus seeded longer ones goes through parse_value_path, parse_target_path and - as a query expression - the real VRL compiler, whose compiled path is read from ProgramInfo (R2: when both accept, same prefix and segments). Differences between the transcription and the code are reported as divergences (none on the pinned tree).",
+   note="trusted: character-sequence transport of texts and fields; the bounded alphabets listed in GenPaths.tla"),
 }
 
 NA = {
